@@ -158,6 +158,10 @@ func c17Main(args []string) error {
 				ctx, cancel := context.WithCancel(context.Background())
 				defer cancel()
 				base, cancelled, _ := strings.Cut(kind, "-")
+				fileOps := cancelled == "ops"
+				if fileOps {
+					cancelled = ""
+				}
 				if cancelled != "" {
 					prog = []string{"PROBE", nonce, "say:3:" + marker, "fdsfd:3", "sleep:60000"}
 				}
@@ -165,6 +169,47 @@ func c17Main(args []string) error {
 				t0 := time.Now()
 				if cancelled != "" {
 					time.AfterFunc(40*time.Millisecond, cancel)
+				}
+				if fileOps {
+					// file operations and pings on a shared environment, concurrent with other calls on it:
+					// create an own file, write the marker, read it back through a second Open, delete it
+					e := envs[base]
+					path := fmt.Sprintf("/w/ops-%d-%d", rd.ID, i)
+					o := withTimeout(func() opResult {
+						if err := e.Ping(); err != nil {
+							return errRes(err)
+						}
+						w, err := e.Open([]container.OpenCmd{{Path: path, Flag: os.O_CREATE | os.O_WRONLY | os.O_TRUNC, Perm: 0644}})
+						if err != nil {
+							return errRes(err)
+						}
+						if w[0].Err != nil {
+							return errRes(w[0].Err)
+						}
+						w[0].File.WriteString(marker)
+						w[0].File.Close()
+						rd2, err := e.Open([]container.OpenCmd{{Path: path, Flag: os.O_RDONLY}})
+						if err != nil {
+							return errRes(err)
+						}
+						if rd2[0].Err != nil {
+							return errRes(rd2[0].Err)
+						}
+						b := make([]byte, 64)
+						n, _ := rd2[0].File.Read(b)
+						rd2[0].File.Close()
+						if err := e.Delete(path); err != nil {
+							return errRes(err)
+						}
+						if err := e.Ping(); err != nil {
+							return errRes(err)
+						}
+						return opResult{R: "ok", Detail: string(b[:n])}
+					})
+					r.Ms = time.Since(t0).Milliseconds()
+					r.R, r.Err, r.Marker = o.R, trimErr(o.Err), o.Detail
+					res[i] = r
+					return
 				}
 				var o opResult
 				switch base {
